@@ -286,3 +286,15 @@ func VerifC12Descriptor() {
 	}
 	verifCover("C12.descriptor.end")
 }
+
+// frames longer than 64 KiB: fragment offsets do not fit 16 bits
+func VerifC12LongFrame() {
+	n := verifPick("len", []int{65540, 80010})
+	mtu := uint16(verifPick("mtu", []int{65535, 40000, 30011}))
+	flex := verifCase("flexible", 0, 1) == 1
+	p := &VP9Payloader{FlexibleMode: flex, InitialPictureIDFn: func() uint16 { return 7 }}
+	data := verifLongFrame(n, false)
+	data[0] = 0x84 | verifU8("flags")&3 // profile 0 inter frame
+	verifC12Frame("C12.long", p, mtu, 7, verifVP9Frame{data: data})
+	verifCover("C12.long.end")
+}
